@@ -1,6 +1,7 @@
 """Shared plumbing: locating the code under test, observation helpers, outcome and
 evidence bookkeeping.  No check logic lives here."""
 import copy
+import random
 import hashlib
 import io
 import json
@@ -177,6 +178,39 @@ def subscribe(obs, snap):
             snap.err = e
             snap.raised = True
     return snap
+
+
+PRELUDE_TAGS = ['after-aborted-subscriptions', 'prelude:dispose', 'prelude:source_error', 'prelude:consumer_raise', 'prelude:peek']
+
+
+def with_prelude(cases, rng, every=4, size=None, max_size=250):
+    """Gives every `every`-th case a HISTORY (case['prelude']): 1-3 aborted subscriptions of the very observable
+    that then serves the judged subscription - disposed after k items, killed by a source error after k items,
+    a consumer that raises at its j-th item, a take(j) peek.  See progs.play_prelude."""
+    r = random.Random(rng.randrange(1 << 30))
+    for n, case in enumerate(cases):
+        if n % every == 1 and 'prelude' not in case:
+            sz = size(case) if size else len(case.get('items', ()))
+            if sz <= max_size:
+                case = dict(case, prelude=[[r.choice(['dispose', 'source_error', 'consumer_raise', 'peek']), r.randint(0, max(1, sz))]
+                                           for _ in range(r.randint(1, 3))])
+        yield case
+
+
+def prelude_tags(case, out):
+    if case.get('prelude'):
+        out.tags.append('after-aborted-subscriptions')
+        out.tags += ['prelude:' + p[0] for p in case['prelude']]
+
+
+def shrink_prelude(case):
+    if case.get('prelude'):
+        c = dict(case)
+        del c['prelude']
+        yield c
+        if len(case['prelude']) > 1:
+            for k in range(len(case['prelude'])):
+                yield dict(case, prelude=case['prelude'][:k] + case['prelude'][k + 1:])
 
 
 def subscribe2(obs, out, what, same=None):
